@@ -433,8 +433,8 @@ Section EnumBody.
       run_body I eq_env (cmp_enum_body partial ds vps) (eq_state a b) = (RVal (enc partial o), s').
   Proof.
     intros Hds Hvps Hls Hwf Hm Ha Hb.
-    destruct a as [| | | | | |va xs| | | |]; try discriminate Ha.
-    destruct b as [| | | | | |vb ys| | | |]; try discriminate Hb.
+    destruct a as [| | | | | |va xs| | | | |]; try discriminate Ha.
+    destruct b as [| | | | | |vb ys| | | | |]; try discriminate Hb.
     cbn [ovalue_ok] in Ha, Hb.
     destruct (oc_get va (zip_cfg ds ls)) as [[da la]|] eqn:Ela; [|discriminate Ha].
     destruct (oc_get vb (zip_cfg ds ls)) as [[db lb]|] eqn:Elb; [|discriminate Hb].
